@@ -610,3 +610,94 @@ pub(crate) fn assert_log_is_model(
         i += 1;
     }
 }
+
+// ---------------------------------------------------------------- fast path
+
+/// "Line-terminator" personality: declares the shape's line terminator, so
+/// the searcher takes the FAST line path.  `find_candidate_line` is handed a
+/// suffix of the buffer that starts at a line start; the matcher learns that
+/// start from the suffix's length (the buffer is the whole shape) and answers
+/// from per-line tables: hit[k] (line k matches), cand[k] >= hit[k] (a
+/// prefilter may also flag non-matching lines), moff[k] (where in line k's
+/// content the reported offset falls).  `confirm` selects whether it reports
+/// Confirmed (no prefilter) or Candidate offsets, as RegexMatcher does.
+/// This family is line-local by construction (H-LOC is the obligation that
+/// ties RegexMatcher to it).
+pub(crate) struct LtMatcher {
+    pub plain: PlainMatcher,
+    pub cand: [bool; MAXL],
+    pub moff: [usize; MAXL],
+    pub confirm: bool,
+    pub n: usize,
+    pub lstart: &'static [usize],
+    pub term: LineTerminator,
+}
+
+impl LtMatcher {
+    pub(crate) fn new<S: Shape>(hit: [bool; MAXL]) -> LtMatcher {
+        let mut cand = [false; MAXL];
+        let mut moff = [0usize; MAXL];
+        let mut k = 0;
+        while k < S::NL {
+            let c: bool = kani::any();
+            cand[k] = c || hit[k];
+            let m: usize = kani::any();
+            kani::assume(m <= S::CLEN[k]);
+            moff[k] = m;
+            k += 1;
+        }
+        LtMatcher {
+            plain: PlainMatcher::new::<S>(hit),
+            cand,
+            moff,
+            confirm: kani::any(),
+            n: S::HAY.len(),
+            lstart: S::LSTART,
+            term: term_of::<S>(),
+        }
+    }
+}
+
+impl Matcher for LtMatcher {
+    type Captures = NoCaptures;
+    type Error = FatErr;
+
+    fn find_at(&self, hay: &[u8], at: usize) -> Result<Option<Match>, FatErr> {
+        // only ever asked about one stripped line (candidate re-check, slow path)
+        self.plain.find_at(hay, at)
+    }
+
+    fn new_captures(&self) -> Result<NoCaptures, FatErr> {
+        Ok(NoCaptures::new())
+    }
+
+    fn line_terminator(&self) -> Option<LineTerminator> {
+        Some(self.term)
+    }
+
+    fn find_candidate_line(
+        &self,
+        hay: &[u8],
+    ) -> Result<Option<grep_matcher::LineMatchKind>, FatErr> {
+        let pos = self.n - hay.len();
+        let nl = self.plain.nl;
+        let mut k = 0;
+        let mut found = usize::MAX;
+        while k < MAXL {
+            if k < nl && found == usize::MAX && self.lstart[k] >= pos {
+                let flagged = if self.confirm { self.plain.hit[k] } else { self.cand[k] };
+                if flagged {
+                    found = self.lstart[k] + self.moff[k] - pos;
+                }
+            }
+            k += 1;
+        }
+        if found == usize::MAX {
+            Ok(None)
+        } else if self.confirm {
+            Ok(Some(grep_matcher::LineMatchKind::Confirmed(found)))
+        } else {
+            Ok(Some(grep_matcher::LineMatchKind::Candidate(found)))
+        }
+    }
+}
